@@ -51,6 +51,19 @@ def cases(tier, seed):
         d = bool(t % 2)
         out.append({'kind': 'sp', 'g': ['er', n, float(rs.choice([.3, .5, .7, .9])), d, int(rs.randint(1 << 30))], 'directed': d,
                     'ws': seed * 1000 + t, 'schemes': ['int', 'dyad', 'decimal'] if t % 2 else ['decimal']})
+    # the same with 20-40 nodes (longer routes: a Pmat route may have several more connections than any counted one)
+    for t in range(12000 if thorough else 2500):
+        n = int(rs.randint(20, 41))
+        d = bool(t % 2)
+        out.append({'kind': 'sp', 'g': ['er', n, float(rs.choice([.1, .15, .25, .4])), d, int(rs.randint(1 << 30))], 'directed': d,
+                    'ws': seed * 1000 + t, 'schemes': ['decimal'], 'big': True})
+    # lengths that are absorbed in a float sum (1e-17 next to 0.5): exact ties between routes with different numbers
+    # of connections, and sums that do not grow along a route
+    for t in range(20000 if thorough else 4000):
+        n = int(rs.randint(6, 13))
+        d = bool(t % 2)
+        out.append({'kind': 'sp', 'g': ['er', n, float(rs.choice([.25, .4, .6])), d, int(rs.randint(1 << 30))], 'directed': d,
+                    'ws': seed * 1000 + t, 'schemes': ['absorb']})
     # navigation
     for t in range(200 if thorough else 60):
         n = int(rs.randint(4, nmax + 1))
@@ -62,6 +75,11 @@ def cases(tier, seed):
     return out
 
 
+def RAW_RETRIEVE(bct):
+    from ..monitor import raw
+    return raw(bct.retrieve_shortest_path)
+
+
 def run_sp(case, bct, REC):
     A = G.build(case['g'])
     directed = case['directed']
@@ -71,7 +89,7 @@ def run_sp(case, bct, REC):
         trs = [None] if sc in ('bin', 'int') else [None, 'inv', 'log']
         if sc == 'decimal':
             trs = [None, 'inv']
-        if sc == 'logu':
+        if sc in ('logu', 'absorb') or case.get('big'):
             trs = [None]
         if 'log' in trs and L.max() > 1:   # the log transform is documented for weights in (0,1]
             trs = [t for t in trs if t != 'log']
@@ -97,7 +115,8 @@ def run_sp(case, bct, REC):
                     if s == t:
                         continue
                     try:
-                        p = bct.retrieve_shortest_path(s, t, hops, Pmat)
+                        # the boundary monitors watch the first pairs of every matrix; the bulk goes straight in
+                        p = (bct.retrieve_shortest_path if s * n + t < 60 else RAW_RETRIEVE(bct))(s, t, hops, Pmat)
                     except Exception as e:  # noqa
                         bad = bad or {'s': s, 't': t, 'exception': repr(e)[:200]}
                         continue
@@ -131,6 +150,10 @@ def run_sp(case, bct, REC):
             # or: some pair has minimum-length routes with different hop counts (ties, incl. rounding-level ties)
             if bool(np.any(E[np.isfinite(E)] == 0)):
                 cls = ('zero_length_edge',)
+            elif case.get('big'):
+                cls = ('one_decimal_20_to_40_nodes',)
+            elif sc == 'absorb':
+                cls = ('absorbed_lengths',)
             else:
                 Hs = O.hop_sets(E, D, rtol=1e-9, absent_is_zero=False)
                 tie = any(len(Hs[a][b]) > 1 for a in range(n) for b in range(n) if a != b)
